@@ -32,18 +32,19 @@ Proof.
   destruct (drop_prefix _ s); [intros H; injection H as <- _; auto | discriminate].
 Qed.
 
-Lemma gfx_match_spec l sm : gfx_match l = Some sm ->
-  is_cmd (sm_cmd sm) /\ sm_list sm <> [] /\ digit_str (sm_idx sm) /\ adv_ok (sm_adv sm).
+Lemma gfx_match_spec_full l sm : gfx_match l = Some sm ->
+  forallb is_listch (sm_list sm) = true /\
+  (is_cmd (sm_cmd sm) /\ sm_list sm <> [] /\ digit_str (sm_idx sm) /\ adv_ok (sm_adv sm)).
 Proof.
   unfold gfx_match. destruct (gfx_prefix l) as [[cmd r0]|] eqn:Ep; [|discriminate]. cbn [obind].
   apply gfx_prefix_spec in Ep.
-  destruct (span is_listch r0) as [lst r1]. destruct lst as [|l0 lst]; [discriminate|].
+  destruct (span is_listch r0) as [lst r1] eqn:Es. apply span_spec in Es. destruct Es as [Hls _]. destruct lst as [|l0 lst]; [discriminate|].
   destruct (expect 61 r1) as [r2|]; [|discriminate]. cbn [obind].
   destruct (take_digits1 r2) as [[idx r3]|] eqn:Ei; [|discriminate]. cbn [obind].
   apply take_digits1_spec in Ei. destruct Ei as [Hidx _].
   destruct r3 as [|c r4]; [discriminate|].
   destruct (c =? 58).
-  { destruct (payload_ok r4); [|discriminate]. intros H; inversion H; subst; cbn [sm_cmd sm_list sm_idx sm_adv adv_ok]; split; [exact Ep|]; split; [discriminate|]; split; [exact Hidx | tauto]. }
+  { destruct (payload_ok r4); [|discriminate]. intros H; inversion H; subst; cbn [sm_cmd sm_list sm_idx sm_adv adv_ok]; split; [exact Hls|]; split; [exact Ep|]; split; [discriminate|]; split; [exact Hidx | tauto]. }
   destruct (c =? 47); [|discriminate].
   destruct (take_digits1 r4) as [[mx r5]|] eqn:Em; [|discriminate]. cbn [obind].
   apply take_digits1_spec in Em. destruct Em as [Hmx _].
@@ -55,7 +56,7 @@ Proof.
   apply take_digits1_spec in Eh. destruct Eh as [Hh _].
   destruct r9 as [|c9 r10]; [discriminate|].
   destruct (c9 =? 58).
-  { destruct (payload_ok r10); [|discriminate]. intros H; inversion H; subst; cbn [sm_cmd sm_list sm_idx sm_adv adv_ok]; split; [exact Ep|]; split; [discriminate|]; split; [exact Hidx | tauto]. }
+  { destruct (payload_ok r10); [|discriminate]. intros H; inversion H; subst; cbn [sm_cmd sm_list sm_idx sm_adv adv_ok]; split; [exact Hls|]; split; [exact Ep|]; split; [discriminate|]; split; [exact Hidx | tauto]. }
   destruct (c9 =? 44); [|discriminate].
   destruct (take_digits1 r10) as [[x r11]|] eqn:Ex; [|discriminate]. cbn [obind].
   apply take_digits1_spec in Ex. destruct Ex as [Hx _].
@@ -63,25 +64,35 @@ Proof.
   destruct (take_digits1 r12) as [[y r13]|] eqn:Ey; [|discriminate]. cbn [obind].
   apply take_digits1_spec in Ey. destruct Ey as [Hy _].
   destruct (expect 58 r13) as [pay|]; [|discriminate]. cbn [obind].
-  destruct (payload_ok pay); [|discriminate]. intros H; inversion H; subst; cbn [sm_cmd sm_list sm_idx sm_adv adv_ok]; split; [exact Ep|]; split; [discriminate|]; split; [exact Hidx | tauto].
+  destruct (payload_ok pay); [|discriminate]. intros H; inversion H; subst; cbn [sm_cmd sm_list sm_idx sm_adv adv_ok]; split; [exact Hls|]; split; [exact Ep|]; split; [discriminate|]; split; [exact Hidx | tauto].
 Qed.
 
-Lemma digits_value_nonneg : forall s acc, forallb is_digit s = true -> 0 <= acc -> 0 <= digits_value s acc.
+Lemma gfx_match_spec l sm : gfx_match l = Some sm ->
+  is_cmd (sm_cmd sm) /\ sm_list sm <> [] /\ digit_str (sm_idx sm) /\ adv_ok (sm_adv sm).
+Proof. intros H. apply gfx_match_spec_full in H. tauto. Qed.
+
+Lemma parse_uint_nonneg : forall s acc v, 0 <= acc -> parse_uint s acc = Some v -> 0 <= v.
 Proof.
-  induction s as [|c r IH]; intros acc H Ha; cbn [digits_value]; auto.
-  cbn in H. apply andb_true_iff in H. destruct H as [Hc Hr]. apply IH; auto. unfold is_digit in Hc. lia.
+  induction s as [|c r IH]; intros acc v Ha H; cbn [parse_uint] in H.
+  - injection H as <-. exact Ha.
+  - destruct (is_digit c) eqn:Hc; [|discriminate].
+    unfold is_digit in Hc. apply andb_true_iff in Hc. destruct Hc as [H1 H2].
+    apply Z.leb_le in H1. apply Z.leb_le in H2.
+    destruct (acc >=? 1844674407370955162); [injection H as <-; unfold max_uint64; lia|].
+    destruct (acc * 10 + (c - 48) >? max_uint64); [injection H as <-; unfold max_uint64; lia|].
+    eapply IH; [|exact H]. lia.
 Qed.
 
 Lemma atoi_digits_nonneg s : digit_str s -> 0 <= atoi s.
 Proof.
-  intros [Hd Hne]. unfold atoi. destruct (atoi_syntax_ok s); [|lia].
+  intros [Hd Hne]. unfold atoi.
   destruct s as [|c r]; [lia|].
   assert (Hc : is_digit c = true) by (cbn in Hd; apply andb_true_iff in Hd; tauto).
   pose proof (is_digit_not_sign c Hc) as Hs. apply orb_false_iff in Hs. destruct Hs as [H43 H45].
-  rewrite H45, H43. pose proof (digits_value_nonneg (c :: r) 0 Hd ltac:(lia)).
-  unfold max_int64, min_int64.
-  destruct (digits_value (c :: r) 0 >? 9223372036854775807); [lia|].
-  destruct (digits_value (c :: r) 0 <? -9223372036854775808) eqn:E2; lia.
+  rewrite H45, H43. cbn [orb].
+  destruct (parse_uint (c :: r) 0) as [un|] eqn:E; [|lia].
+  assert (0 <= un) by (eapply parse_uint_nonneg; [|exact E]; lia).
+  destruct (un >=? 9223372036854775808); unfold max_int64; lia.
 Qed.
 
 Lemma sm_index_nonneg l sm : gfx_match l = Some sm -> 0 <= sm_index sm.
@@ -218,8 +229,6 @@ Proof.
       change (b64_decode (sm_payload sm)) with (c_data c). apply Picks_snoc_take; assumption.
 Qed.
 
-Definition to_ds (l : list (Z * (list Z * gfx))) : list delivery :=
-  map (fun x => mkD (fst x) (fst (snd x)) (snd (snd x))) l.
 
 Lemma batch_chain : forall ls hp lastd st, Inv hp lastd st -> lastd <= zlen hp ->
   Chain (hp ++ map classify ls) lastd (to_ds (batch_gfx_from st (zlen hp) ls)).
